@@ -11,3 +11,5 @@ func verifIO(db *DB, kind string, off int64, data []byte) error { return nil }
 func verifWrapOps(db *DB) {}
 
 func verifWrapFreelist(db *DB, f fl.Interface) fl.Interface { return f }
+
+func verifEvent(db *DB, ev string, n int) {}
